@@ -22,6 +22,14 @@ CLAIMED = {
           "Generated outer/inner event timelines (cold and hot inners, every concurrency limit) are compared with a queue simulation; tagged items give exactly-once / per-inner order, a defer+finalize tracker gives the live inner-subscription maximum, panics and MutArc self-deadlocks are verdicts. Exploration within the stated bounds.",
           "Trusts the simulation in props/c05.rs and the tracker operator; self-deadlock detection relies on the verif_hooks lock hook (single thread: a held lock can only be held by the caller).",
           "DESIGN.md §3 C05"),
+  "C07": ("engine-P", "oracle-over-timed-history PBT on a virtual clock with an owned scheduler (proptest tapes + shrinking): generated timed scripts x scheduler models (FIFO prompt / FIFO late / any ready task next with generated run order)",
+          "Each scheduler-moving operator (all forms incl. _at) runs generated timed scripts on a virtual clock under three executor models; the delivered history is checked for no invention/duplication, never-early (per item: delivery >= production + delay; _at: the duration asked from the timer), and after quiescence for order and completeness against the source script. Exploration within the stated bounds; any-order reorder/loss of observe_on/delay is a listed known finding.",
+          "Trusts the virtual clock (NEW_TIMER_FN), the VSched scheduler (delegates to LocalSpawner::schedule; pool per task in the any-order model) and the hour-scale tolerance that absorbs the real Instant::now().",
+          "DESIGN.md §3 C07"),
+  "C08": ("engine-P", "oracle-over-timed-history PBT on a virtual clock: generated clock/executor scripts over interval, timer and scripted futures/streams (proptest tapes + shrinking)",
+          "1-3 independent time/async sources run under generated clock scripts (single firings, jumps over many periods) and three executor models; interval/timer histories are checked for consecutive values, never-early and exact-period timing with a prompt executor; scripted futures/streams must be relayed exactly, never early, never polled after their end, and not stall while values are ready. Exploration within the stated bounds.",
+          "Trusts the virtual clock and the scripted Future/Stream implementations in build_body.rs.",
+          "DESIGN.md §3 C08"),
   "C13": ("engine-P", "model-based PBT with instrumented closures: generated cold chains built once as CloneableBoxOp, cloned and subscribed successively and nested; counters + reference interpreter as oracle",
           "Generated cold chains (counting source closures, defer factories, poll-counting futures, counting map/filter/scan/tap closures) are built once, then 2-3 clones are subscribed successively and one from inside a callback: all counters must be 0 after building, grow by exactly one per subscription, and every subscription must deliver the reference interpreter's sequence. Exploration within the stated bounds.",
           "Trusts the reference interpreter and the counting wrappers; only operators with a cloneable form are generated (the C03 catalogue).",
